@@ -155,16 +155,26 @@ claim("C20", "proof",
       "Coq proof over an I/O plan model with a fault oracle + fault enumeration through an LD_PRELOAD shim")
 
 claim("C10", "proof",
-      "Theorems (Properties_C10.v) about the guard every access goes through (SBEPP_SIZE_CHECK as modelled in "
-      "Cursor.size_check): a passed check implies begin <= end and the accessed bytes lie inside [begin,end), wherever the "
-      "view starts; accessed bytes inside the buffer never fail the check; cursor accessors at the required position "
-      "report nothing; the macro before the fix is refuted (views starting past the end passed every check). That each "
-      "library operation passes its true accessed extent to the guard is decided by correspondence: every accessor kind "
-      "on images truncated around every header/dimension/length/field boundary and at sampled lengths, the view ending on "
-      "a PROT_NONE page: never a fault, returned values equal the complete-image values, model-out-of-bounds => handler, "
-      "complete image => no handler; plus a hostile <data> length steering the next view past the end.",
-      TB + " Partial: per-operation extents are tied by the sweep, not proved; container mutators are covered by C13/C14.",
-      "Coq proof about the size-check guard + fault enumeration (truncation sweep under guard pages)")
+      "Theorems (Properties_C10.v). (1) The guard (SBEPP_SIZE_CHECK as modelled in Cursor.size_check): a passed check "
+      "implies begin <= end and the accessed bytes lie inside [begin,end), wherever the view starts; accessed bytes inside "
+      "the buffer never fail the check; cursor accessors at the required position report nothing; the macro before the fix "
+      "is refuted. (2) The random-access API WITH its explicit checks (CheckedAccess.v: for scalar / array element / "
+      "composite member getters, group header info, group size_bytes flat and nested, entry address and size, data length "
+      "and payload, message size_bytes and the navigation to any path, the SBEPP_SIZE_CHECK(begin,end,offset,size) calls in "
+      "the order sbepp.hpp makes them, interleaved with reads that do not look at the bounds), for ALL tables, buffers and "
+      "paths (CheckedAccessProofs.v): every touched byte range - also those touched before an assertion - lies inside the "
+      "buffer; without any hypothesis nothing at or beyond the end is touched; a returned value is the value of the "
+      "bounds-tested Msg.v function; every size-check report names an extent that leaves the buffer; when the message lies "
+      "inside the buffer and the documented preconditions hold no check fires and the same value is returned; the naive "
+      "criterion 'all READ bytes inside => no report' is refuted (whole-header / whole-entry checks). Correspondence: the "
+      "outcome (value or handler) of every op on images truncated around every header/dimension/length/field boundary and "
+      "at sampled lengths, the view ending on a PROT_NONE page, must be the outcome of the checked model; the read-based "
+      "Msg.v expectation is kept as a cross-check; never a fault; complete image => no handler; plus hostile <data> "
+      "lengths steering the next view past the end.",
+      TB + " Partial: that CheckedAccess.v transcribes sbepp.hpp's checks is tied by the sweep (exact agreement of "
+      "value/handler at every truncation point), not proved against the C++ text; cursor traversal keeps the read-based "
+      "expectation; container mutators are covered by C13/C14.",
+      "Coq proof about the size-check guard and the checked random-access API + fault enumeration (truncation sweep under guard pages)")
 
 claim("C07", "proof",
       "PARTIAL by nature (no model can express 'g++ accepts this text'). 11 theorems (Properties_C07.v): rendered integer "
